@@ -303,6 +303,33 @@ pub proof fn lemma_roundtrip_response(dst: u8, me: u8, iid: u8, cmd: u8, cc: u8,
     }
 }
 
+
+/// C01 (control response), stated over an arbitrary body whose first byte has the request bit clear
+pub proof fn lemma_roundtrip_response_body(dst: u8, me: u8, body: Seq<u8>)
+    requires body.len() >= 3, body[0] & 0x80 == 0, body[2] <= 5
+    ensures ({
+        let p = packet_spec(dst, me, 0u8, body);
+        let cmd = body[1]; let cc = body[2];
+        &&& hdr_ok(p) && pec_ok(p) && is_ctrl(p) && !is_req(p[9]) && p.len() >= 13 && p[10] == cmd && p[11] == cc && p[9] == body[0]
+        &&& (cc != 0 ==> !decode_accepts(p) && decode_err(p) == DecErr::Completion(cc) && !decode_known_panic(p))
+        &&& (cc == 0 ==> (decode_accepts(p) <==> (resp_len(cmd) > 0 ==> body.len() - 3 == resp_len(cmd))))
+        &&& (cc == 0 ==> (resp_cmd_known(cmd) <==> !decode_known_panic(p)))
+        &&& payload_start(p) == 12
+        &&& p.subrange(12, p.len() - 1) =~= body.subrange(3, body.len() as int)
+        &&& !is_answerable(p)
+        &&& p[5] == dst && p[6] == me
+    })
+{
+    let p = packet_spec(dst, me, 0u8, body);
+    lemma_packet_spec_index(dst, me, 0u8, body);
+    lemma_packet_spec_pec(dst, me, 0u8, body);
+    assert(0u8 & 0x80 == 0 && 0u8 & 0x7f == 0) by(bit_vector);
+    assert(p[9 + 0int] == body[0] && p[9 + 1int] == body[1] && p[9 + 2int] == body[2]);
+    assert forall|j: int| 0 <= j < body.len() - 3 implies p.subrange(12, p.len() - 1)[j] == body.subrange(3, body.len() as int)[j] by {
+        assert(p[9 + (3 + j)] == body[3 + j]);
+    }
+}
+
 // ------------------------------------------------------------------------------- C14: following selectors
 /// next selector returned for selector i when n sets are configured
 pub open spec fn next_selector(i: int, n: int) -> int { if i + 1 == n { 0xFF } else { i + 1 } }
